@@ -657,14 +657,19 @@ func (w *world) prep(rs *reqSpec) (*http.Request, [][]string) {
 		}
 	}
 	if !rs.withhold {
-		j.addTo(r)
+		if (T.prop == "C07" || T.prop == "C17" || T.prop == "C04" || T.prop == "C18") && w.step%5 == 2 {
+			j.addToLines(r, 1+w.step/5%3) // the cookies arrive in several Cookie header lines
+			T.stat("handler.requests-with-several-cookie-lines")
+		} else {
+			j.addTo(r)
+		}
 	}
 	if (T.prop == "C18" || T.prop == "C17" || T.prop == "C07") && w.step%4 == 1 {
 		// cookies the middleware never set under names that look like its chunk cookies (not part of the model: they are not
 		// session content); every line of the answer still has to meet the limits
 		for _, n := range [][]string{{"_oidc_raczylo_a_" + strings.Repeat("0", 4200)}, {"_oidc_raczylo_r_+7", "_oidc_raczylo_a_007"}, {"_oidc_raczylo_r_" + strings.Repeat("0", 3000) + "1", "_oidc_raczylo_a_-0"},
 			{"_oidc_raczylo_a_99999999999999999999999", "_oidc_raczylo_m_0", "_oidc_raczylo_a_1e3"}}[w.step/4%4] {
-			r.AddCookie(&http.Cookie{Name: n, Value: "x"})
+			r.Header.Add("Cookie", n+"=x") // (a line of its own: AddCookie would fold everything into the first line)
 		}
 		T.stat("handler.requests-with-lookalike-cookies")
 	}
